@@ -12,7 +12,10 @@ cp demo.sh $out/demo.sh 2>/dev/null; cp meta.json $out/meta.agent.json 2>/dev/nu
 {
 echo "seeded change $id (worktree $wt)"
 echo "--- go build + unit tests with the change"
-go build -o $wt/goit-mut . && go test -vet=off -count=1 ./... 2>&1 | grep -v "no test files"
+export GOCACHE=$(go env GOCACHE) GOMODCACHE=$(go env GOMODCACHE) GOPATH=$(go env GOPATH)
+mkdir -p /tmp/home-$id
+go build -o $wt/goit-mut . && HOME=/tmp/home-$id go test -vet=off -count=1 ./... 2>&1 | grep -v "no test files"
+rm -rf /tmp/home-$id
 echo "--- demo on the unchanged build / the changed build"
 (cd /repo && go build -o /tmp/goit-orig-$id .)
 sh demo.sh /tmp/goit-orig-$id >/dev/null 2>&1; echo "demo(orig) exit=$?"; rm -f /tmp/goit-orig-$id
